@@ -654,7 +654,7 @@ def gen(tier, rng):
     # (a) exhaustive small scope: trees
     maxn = 3 if tier == 'quick' else 4
     memo = {}
-    leaves_ = LEAVES_Q if tier == 'quick' else LEAVES_Q[:5] + [Sym_('nbsp')]
+    leaves_ = LEAVES_Q
     nodes_ = NODES_Q
     for n in range(1, maxn + 1):
         for t in trees(n, leaves_ if n < 4 else [Str_(''), Str_('a<_{'), Sym_('nbsp')], nodes_ if n < 4 else NODES_Q[1:2] + NODES_Q[3:4] + NODES_Q[5:], memo):
